@@ -15,7 +15,8 @@ pub unsafe fn set_hook(hook: Option<fn(u32)>) {
 }
 
 /// Called by the library at a yield point; `id` names the place.
-#[cfg(not(kani))]
+// (`kv_native` is set for native replays of model-checker counterexamples, which are built with `cfg(kani)` too)
+#[cfg(any(not(kani), kv_native))]
 #[inline]
 pub fn yield_point(id: u32) {
 	// SAFETY: see `set_hook`
@@ -27,14 +28,14 @@ pub fn yield_point(id: u32) {
 /// Under the model checker an indirect call through `HOOK` would make every yield point a
 /// dispatch over all `fn(u32)` in the program; harnesses that schedule replace
 /// [`kani_yield`] with `#[kani::stub]` instead, and for all others it is empty.
-#[cfg(kani)]
+#[cfg(all(kani, not(kv_native)))]
 #[inline]
 pub fn yield_point(id: u32) {
 	kani_yield(id);
 }
 
 /// See [`yield_point`].
-#[cfg(kani)]
+#[cfg(all(kani, not(kv_native)))]
 #[inline(never)]
 pub fn kani_yield(_id: u32) {}
 
